@@ -1,6 +1,7 @@
 use super::Compiler;
 use aelys_bytecode::{OpCode, Value};
 use aelys_common::Result;
+use aelys_common::error::{CompileError, CompileErrorKind};
 use aelys_syntax::Span;
 
 // bytecode emission wrappers - add line info for debug
@@ -35,7 +36,26 @@ impl Compiler {
     }
 
     pub fn patch_jump(&mut self, offset: usize) {
+        self.jump_dist(self.current.current_offset() as isize - offset as isize - 1);
         self.current.patch_jump(offset);
+    }
+
+    // relative jumps are encoded in 16 bits: a distance that does not fit is recorded and the
+    // function is rejected when it is finished, instead of being emitted with a wrapped offset
+    pub fn jump_dist(&mut self, dist: isize) -> i16 {
+        if dist > i16::MAX as isize || dist < -(i16::MAX as isize) {
+            self.jump_out_of_range = true;
+        }
+        dist as i16
+    }
+
+    pub fn ensure_jumps_in_range(&self, span: Span) -> Result<()> {
+        if self.jump_out_of_range {
+            return Err(
+                CompileError::new(CompileErrorKind::JumpTooFar, span, self.source.clone()).into(),
+            );
+        }
+        Ok(())
     }
 
     pub fn emit_return0(&mut self, span: Span) {
